@@ -336,3 +336,94 @@ Fixpoint run_switch {R} (p : cm_program) (calls : list (bool * (switch -> switch
       let '(w'', rs) := run_switch p rest w' in
       (w'', (r, raised) :: rs)
   end.
+
+(* ---------------------------------------------------------------------------------------------- *)
+(* instance used by the correspondence (harness/props/c11.py): everything numbered by Z            *)
+(* ---------------------------------------------------------------------------------------------- *)
+Module ZI.
+Open Scope Z_scope.
+
+Definition exn_eqb (a b : exn) : bool := str_eqb (x_cls a) (x_cls b) && str_eqb (x_msg a) (x_msg b).
+
+Definition entry_eqb (a b : entry) : bool :=
+  okv_eqb (e_ok a) (e_ok b) && Qeq_bool (e_grade a) (e_grade b) && str_eqb (e_msg a) (e_msg b).
+
+Definition line_eqb (a b : line Z Z Z) : bool :=
+  match a, b with
+  | LVersion, LVersion | LDefaults, LDefaults => true
+  | LResp x, LResp y | LInferred x, LInferred y | LChk x, LChk y => Z.eqb x y
+  | _, _ => false
+  end.
+
+Fixpoint lines_eqb (a b : list (line Z Z Z)) : bool :=
+  match a, b with
+  | [], [] => true
+  | x :: a', y :: b' => line_eqb x y && lines_eqb a' b'
+  | _, _ => false
+  end.
+
+Definition outcome_eqb (a b : outcome Z Z Z) : bool :=
+  match a, b with
+  | ORaise x, ORaise y => exn_eqb x y
+  | ORet v None, ORet w None => entry_eqb v w
+  | ORet v (Some l), ORet w (Some k) => entry_eqb v w && lines_eqb l k
+  | _, _ => false
+  end.
+
+Definition optz_eqb (a b : option Z) : bool :=
+  match a, b with
+  | None, None => true
+  | Some x, Some y => Z.eqb x y
+  | _, _ => false
+  end.
+
+(* what the harness reads off the instance after a call *)
+Record observed := mkObs {
+  ob_outcome : nat;                   (* index into the table of canonical outcomes *)
+  ob_answers : option Z;              (* which answers config['answers'] holds *)
+  ob_inferring : bool;
+  ob_created : bool;
+  ob_log : list (line Z Z Z)          (* the instance's debuglog *)
+}.
+
+Definition state_agrees (m : state Z Z Z Z) (o : observed) : bool :=
+  optz_eqb (st_answers m) (ob_answers o) && Bool.eqb (st_inferring m) (ob_inferring o)
+  && Bool.eqb (st_created m) (ob_created o) && lines_eqb (st_log m) (ob_log o).
+
+Section Agree.
+Variable dm : bool.
+Variable cfg : config.
+Variable O : oracles Z Z Z Z.
+Variable cp : create_program.
+Variable p : call_program.
+Variable outcomes : list (outcome Z Z Z).
+
+(* the model, run on the very events the implementation was run on, agrees call by call on outcome and state *)
+Fixpoint agree_from (m : state Z Z Z Z) (evs : list (event Z Z)) (obs : list observed) : bool :=
+  match evs, obs with
+  | [], [] => true
+  | (e, s) :: evs', o :: obs' =>
+      let '(m', out) := call dm cfg O cp p m e s in
+      outcome_eqb out (nth (ob_outcome o) outcomes (ORaise none_exn))
+      && state_agrees m' o && agree_from m' evs' obs'
+  | _, _ => false
+  end.
+
+Definition agree (configured : option Z) (c : list (event Z Z) * list observed) : bool :=
+  agree_from (init_state configured) (fst c) (snd c).
+
+(* model-side search: does the model itself meet the property on this history? (every prefix) *)
+Fixpoint spec_from (configured : option Z) (done : list (event Z Z)) (m : state Z Z Z Z) (evs : list (event Z Z)) : bool :=
+  match evs with
+  | [] => true
+  | (e, s) :: evs' =>
+      let '(m', out) := call dm cfg O cp p m e s in
+      outcome_eqb out (spec dm cfg O cp p configured done e s)
+      && spec_from configured (done ++ [(e, s)]) m' evs'
+  end.
+
+Definition meets_spec (configured : option Z) (evs : list (event Z Z)) : bool :=
+  spec_from configured [] (init_state configured) evs.
+
+End Agree.
+End ZI.
